@@ -41,6 +41,7 @@ class Recorder:
     def on_event(self, event):
         loop = self.world.loop
         self.events.append((loop.time(), loop.iterations, event))
+        self.world.trace('ev', self.node.name, type(event).__name__, loop.iterations)
         for hook in self.hooks:
             hook(event)
 
